@@ -56,11 +56,27 @@ func Parse(input string) ParseResult {
 
 	stream := antlr.NewCommonTokenStream(lexer, antlr.TokenDefaultChannel)
 
-	parser := parser.NewNumscriptParser(stream)
-	parser.RemoveErrorListeners()
-	parser.AddErrorListener(listener)
+	numscriptParser := parser.NewNumscriptParser(stream)
+	numscriptParser.RemoveErrorListeners()
+	numscriptParser.AddErrorListener(listener)
 
-	parsed := parseProgram(parser.Program())
+	programCtx := numscriptParser.Program()
+
+	// Number literals are stored as int:
+	// the ones that do not fit are reported as errors (they used to crash the parser)
+	for _, tk := range stream.GetAllTokens() {
+		if tk.GetTokenType() != parser.NumscriptLexerNUMBER {
+			continue
+		}
+		if _, err := strconv.Atoi(tk.GetText()); err != nil {
+			listener.Errors = append(listener.Errors, ParserError{
+				Range: tokenToRange(tk),
+				Msg:   "number literal out of range: " + tk.GetText(),
+			})
+		}
+	}
+
+	parsed := parseProgram(programCtx)
 
 	return ParseResult{
 		Source: input,
@@ -588,9 +604,10 @@ func parseSendStatement(statementCtx *parser.SendStatementContext) *SendStatemen
 func parseNumberLiteral(numNode antlr.TerminalNode) *NumberLiteral {
 	amtStr := numNode.GetText()
 
+	// out of range literals are reported as errors by Parse()
 	amt, err := strconv.Atoi(amtStr)
 	if err != nil {
-		panic("Invalid number: " + amtStr)
+		amt = 0
 	}
 
 	return &NumberLiteral{
